@@ -440,3 +440,11 @@ pub fn check_compile_time() -> Option<Violation> {
     }
     None
 }
+
+#[cfg(test)]
+mod t {
+    #[test]
+    fn counts() {
+        println!("c11_cells = {} c17_cells = {} reps = {}", super::c11_cells().len(), super::c17_cells().len(), super::rep_packets().len());
+    }
+}
